@@ -316,6 +316,10 @@ func (e *Exec) recvReady(c *ChanObj) bool {
 		return false
 	}
 	x := e.cx(c)
+	if c.TimerArmed && e.threads != nil && e.threads.switches > c.TimerAt {
+		c.TimerArmed = false
+		c.Buf = append(c.Buf, mkTime(e, e.ts.Const(64, 0)))
+	}
 	return len(x.handoff) > 0 || len(c.Buf) > 0 || len(x.sendq) > 0 || c.Closed
 }
 
